@@ -7,6 +7,8 @@ for presentation-blind programs `yq -o json -I0 P` must print the same values fo
 import json
 import random
 
+import cli_c15
+import cli_c27
 import climon
 import driver
 import navgen
@@ -60,23 +62,28 @@ def check_one(rep, binary, case, prog, tmp):
             try:
                 res[name] = ("ok", parse_json_stream(r.out.decode("utf-8")))
             except (ValueError, UnicodeDecodeError) as e:
-                rep.violation(f"C26:unparseable_output:{name}", f"yq {prog!r} on {name}: {e}", replay)
+                rep.violation(f"C26:unparseable_output:{name}:{cli_c27.input_class(bytes.fromhex(case['json_hex']), 'json')}", f"yq {prog!r} on {name}: {e}", replay)
                 return
+    jtxt = bytes.fromhex(case["json_hex"])
+    icls = cli_c27.input_class(jtxt, "json")
+    lead = jtxt[: len(jtxt) - len(jtxt.lstrip(b" \t\r\n"))]
+    if b"\t" in lead and jtxt.lstrip(b" \t\r\n")[:1] not in (b"{", b"["):
+        icls += "+leading_tab_before_root_scalar"
     base_name = "json-stdin"
     base = res[base_name]
     for name, val in res.items():
         if name == base_name:
             continue
         if val[0] != base[0]:
-            rep.violation(f"C26:status_differs:{base_name}|{name}", f"yq {prog!r}: {base_name} -> {base[0]} {base[1] if base[0]=='err' else ''}; {name} -> {val[0]} {val[1] if val[0]=='err' else ''}", replay)
+            rep.violation(f"C26:status_differs:{base_name}|{name}:{icls}", f"yq {prog!r}: {base_name} -> {base[0]} {base[1] if base[0]=='err' else ''}; {name} -> {val[0]} {val[1] if val[0]=='err' else ''}", replay)
             return
         if val[0] == "ok":
             if len(val[1]) != len(base[1]):
-                rep.violation(f"C26:result_count:{base_name}|{name}", f"yq {prog!r}: {len(base[1])} vs {len(val[1])} results", replay)
+                rep.violation(f"C26:result_count:{base_name}|{name}:{icls}", f"yq {prog!r}: {len(base[1])} vs {len(val[1])} results", replay)
                 return
             for x, y in zip(base[1], val[1]):
                 if not cmp_equal(x, y):
-                    rep.violation(f"C26:value_differs:{base_name}|{name}", f"yq {prog!r}: {first_diff(x, y)}", replay)
+                    rep.violation(f"C26:value_differs:{base_name}|{name}:{icls}:{cli_c15.diff_class(x, y)}", f"yq {prog!r}: {first_diff(x, y)}", replay)
                     return
     rep.count("agree.ok" if base[0] == "ok" else "agree.err")
 
